@@ -84,7 +84,7 @@ def _has_nan(rows):
 
 
 def _mismatch(lv, lc, o_v, o_c):
-    """None when (values, counts) agree with the oracle, else (message, relerr)."""
+    """(None, max rel. error) when values and counts agree with the oracle, else (message, error)."""
     lv = np.asarray(lv, dtype=float)
     o_v = np.asarray(o_v, dtype=float)
     if lv.shape != o_v.shape:
@@ -843,9 +843,12 @@ def check_axis(case, rec):
     rec.nontrivial(size >= 4 and nonempty >= 2)
 
 
+# quick: ~35 s on 16 cores; thorough: ~8 min on 16 idle cores.  A shard that
+# runs out of its budget (machine shared with other runs) stops as inconclusive.
+_B = dict(budget_quick=100.0, budget_thorough=840.0)
 SUBS = [
-    Sub("iso", gen_iso, check_iso, quick=4000, thorough=60000, shards_quick=4, shards_thorough=4),
-    Sub("latlon", gen_latlon, check_latlon, quick=2000, thorough=30000, shards_quick=2, shards_thorough=3),
-    Sub("directional", gen_dir, check_dir, quick=7000, thorough=105000, shards_quick=7, shards_thorough=7),
-    Sub("axis", gen_axis, check_axis, quick=2400, thorough=24000, shards_quick=3, shards_thorough=2),
+    Sub("iso", gen_iso, check_iso, quick=4000, thorough=45000, shards_quick=4, shards_thorough=4, **_B),
+    Sub("latlon", gen_latlon, check_latlon, quick=2000, thorough=22000, shards_quick=2, shards_thorough=3, **_B),
+    Sub("directional", gen_dir, check_dir, quick=7000, thorough=80000, shards_quick=7, shards_thorough=7, **_B),
+    Sub("axis", gen_axis, check_axis, quick=2400, thorough=18000, shards_quick=3, shards_thorough=2, **_B),
 ]
